@@ -55,6 +55,21 @@ def esc_cases():
     return out
 
 
+def after_loop_cases():
+    """the statement that follows a loop x the way the loop is left x the enclosing handler: it is carried by the break itself"""
+    P = []
+    exits = {"break": '/[ab]/; n = [n + 1]; break;', "cond-break": '/[ab]/; n = [n + 1]; if n == 2 { break; }', "case-break": 'case { /[ab]/ -> { n = [n + 1]; } ";" -> { break; } }',
+             "optional-break": '/[ab]/; optional { ";"; break; }', "elif-break": '/[ab]/; if n == 1 { n = 2; } elif $last == 98 { break; } else { n = 1; }'}
+    after = {"appendc": 's += [65];', "append": 's += /[xy]/;', "set": 'n = 0;', "hook": 'h();', "finish": 'finish F;', "delete": 'delete s;', "setstr": 's = "q";',
+             "cond-append": 'if n == 2 { s += [66]; }', "two": 's += [65]; s += [66];'}
+    wraps = {"plain": 'loop { %s } %s "z";', "try-oos": 'loop { try { loop { %s } %s "z"; } catch (outofspace) { h(); delete s; "x"; } }', "try": 'try { loop { %s } %s "z"; } catch { h(); "x"; }'}
+    for en, e in exits.items():
+        for an, a in after.items():
+            for wn, w in wraps.items():
+                P.append(('out str[3] s; out int{unsigned, size 1} n = 0; hook h; finishcode F; parser { ' + (w % (e, a)) + ' }', "after a loop left by %s: %s (%s)" % (en, an, wn)))
+    return P
+
+
 def structure_cases():
     P = []
     add = lambda s, w: P.append((s, w))
@@ -234,7 +249,7 @@ def run(tier, seed):
                rule="single-site mutants (matrices, escapes, structure, corpus identifier swaps) x option sets; distinct = distinct (outcome kind, error class, diagnostic phase) per mutant family; "
                     "evaluations = compilations")
     ck.stop_on_duplicates = False
-    cases = [(s, w, []) for s, w in esc_cases() + structure_cases() + matrix_cases()] + corpus_swaps(tier, seed)
+    cases = [(s, w, []) for s, w in esc_cases() + structure_cases() + after_loop_cases() + matrix_cases()] + corpus_swaps(tier, seed)
     items = []
     for i, (s, w, a) in enumerate(cases):
         osets = OPTSETS if (tier == "thorough" or i % 5 == seed % 5) else [OPTSETS[0], OPTSETS[1 + i % 6]]
